@@ -271,7 +271,7 @@ class NetAddr():
         for e in elements:
             if isinstance(e[0], str):
                 elist.append((self._calc_msg_dgram_size(e), e))
-            elif isinstance(e[0], (int, float)):  # bundle
+            elif isinstance(e[0], (int, float, type(None))):  # bundle
                 elist.append((self._calc_bndl_dgram_size(e[1:]), e))
             else:
                 raise ValueError(
@@ -299,7 +299,7 @@ class NetAddr():
             res += 4  # Element size bytes.
             if isinstance(e[0], str):  # message
                 res += self._calc_msg_dgram_size(e)
-            elif isinstance(e[0], (int, float)):  # bundle
+            elif isinstance(e[0], (int, float, type(None))):  # bundle
                 res += self._calc_bndl_dgram_size(e[1:])
             else:
                 raise ValueError(
